@@ -1051,8 +1051,9 @@ class CollapseCollector(WrappingCollector):
 
         # Collapsing category key
         ckey = keyer.key_to_name(keyer.key_for(matcher, sub_docnum))
-        if not ckey:
-            # If the document isn't in a collapsing category, just add it
+        if ckey is None or ckey == "" or ckey == b"":
+            # If the document isn't in a collapsing category (it has no key
+            # or an empty one -- but 0 is a key like any other), just add it
             return child.collect(sub_docnum)
 
         global_docnum = offset + sub_docnum
